@@ -58,6 +58,11 @@ pub fn serve_as_file_path<T>(directory_path: &'static str) -> impl Fn(Request, A
 
         let path_buf = PathBuf::from(path);
 
+        // Only regular files are served, since opening a named pipe or device could block forever
+        if !path_buf.is_file() {
+            return error_handler(StatusCode::NotFound);
+        }
+
         if let Ok(mut file) = File::open(&path_buf) {
             let mut buf = Vec::new();
             if file.read_to_end(&mut buf).is_ok() {
